@@ -116,8 +116,25 @@ pub enum Iso {
     Done(Expansion),
     /// the child process died (signal / abort) while expanding this input
     Crashed(String),
-    /// no answer within the watchdog time
-    Hung,
+    /// no answer: `true` = the child used up its CPU-time allowance (a busy loop, independent of machine load),
+    /// `false` = only the wall-clock watchdog fired
+    Hung(bool),
+}
+
+/// CPU seconds a child process may use before the kernel stops it (SIGXCPU): a chunk of several thousand expansions
+/// needs about two
+pub const CHILD_CPU_LIMIT: u64 = 120;
+
+/// `program` started through `sh` with a CPU-time limit; arguments are appended by the caller
+pub fn limited(program: &std::ffi::OsStr, cpu_secs: u64) -> Command {
+    let mut c = Command::new("sh");
+    c.arg("-c").arg(format!("ulimit -t {cpu_secs}; exec \"$0\" \"$@\"")).arg(program);
+    c
+}
+
+/// was the process stopped by the CPU-time limit? (SIGXCPU, or SIGKILL at the hard limit)
+pub fn cpu_limit_signal(sig: i32) -> bool {
+    sig == 24 || sig == 9
 }
 
 /// `vcheck expand-child <file>`: expands every source of the JSON array in <file>, one result line each
@@ -167,7 +184,7 @@ pub fn expand_isolated(tag: &str, sources: &[String], keep_ok: bool) -> Vec<Iso>
             while start < list.len() {
                 let f = dir.join(format!("chunk_{ci}_{start}.json"));
                 std::fs::write(&f, serde_json::to_string(&list[start..].to_vec()).unwrap()).unwrap();
-                let mut cmd = Command::new(&exe);
+                let mut cmd = limited(exe.as_os_str(), CHILD_CPU_LIMIT);
                 cmd.arg("expand-child").arg(&f);
                 if keep_ok {
                     cmd.arg("keep-ok");
@@ -176,6 +193,7 @@ pub fn expand_isolated(tag: &str, sources: &[String], keep_ok: bool) -> Vec<Iso>
                 let res = run_with_timeout(cmd, 240);
                 let _ = std::fs::remove_file(&f);
                 let (stdout, status_txt, timed_out) = res;
+                let cpu_stop = status_txt.starts_with("killed by signal 24") || status_txt.starts_with("killed by signal 9");
                 let mut got = 0usize;
                 for l in stdout.lines() {
                     let Ok(v) = serde_json::from_str::<serde_json::Value>(l) else { continue };
@@ -193,13 +211,19 @@ pub fn expand_isolated(tag: &str, sources: &[String], keep_ok: bool) -> Vec<Iso>
                     break;
                 }
                 // the child stopped early: the next input is the one it was working on
-                out.push(if timed_out { Iso::Hung } else { Iso::Crashed(status_txt) });
+                out.push(if timed_out {
+                    Iso::Hung(false)
+                } else if cpu_stop {
+                    Iso::Hung(true)
+                } else {
+                    Iso::Crashed(status_txt)
+                });
                 start += 1;
                 respawns += 1;
                 if respawns > 40 {
                     // give up on the rest of this chunk (reported by the caller as inconclusive through the count)
                     while start < list.len() {
-                        out.push(Iso::Hung);
+                        out.push(Iso::Hung(false));
                         start += 1;
                     }
                 }
@@ -320,7 +344,10 @@ pub struct CompileResult {
 
 /// Compile `src` as a binary crate against the proc macro.
 pub fn rustc_compile(src_path: &Path, exe: &Path, so: &Path, extra: &[&str]) -> CompileResult {
-    let mut cmd = Command::new("rustc");
+    // a macro that loops would otherwise hang every check that compiles something: rustc runs under a CPU-time limit
+    // (a 300-type batch needs about 40 CPU seconds)
+    let cpu: u64 = std::env::var("VERIF_RUSTC_CPU").ok().and_then(|s| s.parse().ok()).unwrap_or(900);
+    let mut cmd = limited(std::ffi::OsStr::new("rustc"), cpu);
     cmd.args(["--edition", "2021", "--error-format=json", "-C", "debuginfo=0", "-C", "debug-assertions=on", "-C", "overflow-checks=on"])
         .arg("--extern")
         .arg(format!("educe={}", so.display()))
@@ -386,7 +413,11 @@ pub fn rustc_compile(src_path: &Path, exe: &Path, so: &Path, extra: &[&str]) -> 
         {
             use std::os::unix::process::ExitStatusExt;
             if let Some(sig) = out.status.signal() {
-                crashed = Some(format!("rustc killed by signal {sig}: {}", other.chars().take(600).collect::<String>()));
+                crashed = Some(if cpu_limit_signal(sig) {
+                    format!("CPU-LIMIT: rustc was stopped after {cpu} s of CPU time (signal {sig}) without finishing")
+                } else {
+                    format!("rustc killed by signal {sig}: {}", other.chars().take(600).collect::<String>())
+                });
             }
         }
         if crashed.is_none() && (other.contains("internal compiler error") || other.contains("panicked at") || diags.iter().all(|d| d.level != "error")) {
